@@ -196,11 +196,9 @@ def r3(ctx):
 
 def r4(ctx):
     ctx.rule('C17.R4', 'the global poll order high-water mark (g_lastPollOrder, the virtual time new priorities are anchored at) '
-             'only grows while messages are queued: it is written in MessageMap::getNextPoll, from the order of the selected '
-             'message and under the test that this order is larger, and it may be reset to 0 only where the poll queue has '
-             'just been emptied as a whole (MessageMap::clear), where it has to be reset - a reset with messages still queued makes later anchored '
-             'messages jump the queue, a mark that survives the clearing starves them after a reload',
-             minimum=2)
+             'only grows: it is written only in MessageMap::getNextPoll, from the order of the selected message and under '
+             'the test that this order is larger; any other write (a reset) makes later anchored messages jump the queue',
+             minimum=1)
     fb = ctx.fb
     n = 0
     for fn in fb.functions:
@@ -212,17 +210,6 @@ def r4(ctx):
             n += 1
             ok = fn.name == 'ebusd::MessageMap::getNextPoll' and op == '=' and rhs is not None
             why = 'written in %s' % fn.name
-            if not ok and op == '=' and rhs is not None and fn.val(rhs) == 0:
-                # a reset is consistent exactly where the poll queue is emptied as a whole (all orders start from scratch)
-                drained = any(b.cond is not None and fn.key(b.cond) in ('this.m_pollMessages.empty()',) or
-                              (b.cond is not None and 'this.m_pollMessages.empty()' in fn.key(b.cond)) for b in fn.blocks.values()) and \
-                    any((fn.nodes[c].get('callee') or '').endswith('::pop') and 'this.m_pollMessages' in fn.key(fn.nodes[c].get('obj', -1))
-                        for c in fn.all('CXXMemberCallExpr'))
-                emptied = drained and not fn.reaches_point(fn.entry, fn.pos(nid), set(),
-                                                             cut_edges=fn.edges_with_atom('this.m_pollMessages.empty()', True))
-                ctx.ob('C17.R4', fn, nid, emptied, 'reset of g_lastPollOrder in %s' % fn.name.split('::')[-1],
-                       'reached only after the poll queue was emptied: %s' % emptied)
-                continue
             if ok:
                 rk = fn.key(rhs)
                 atoms = set((a[0], a[1]) for a in fn.atoms(nid))
@@ -230,24 +217,8 @@ def r4(ctx):
                 ok = rk.endswith('.m_pollOrder') and grows
                 why = 'assigned %s under %s' % (rk, sorted(a for a in atoms if 'g_lastPollOrder' in a[0]))
             ctx.ob('C17.R4', fn, nid, ok, 'write of g_lastPollOrder in %s' % fn.name.split('::')[-1], why)
-    # where the poll queue is emptied as a whole, the mark goes back to 0 on every path: the messages loaded afterwards start
-    # at order 0, a message anchored at the old mark would wait until they have caught up
-    for fn in fb.functions:
-        if not fn.relfile.startswith('src/lib/ebus/message.') or not fn.blocks or fn.name == 'ebusd::MessageMap::getNextPoll':
-            continue
-        pops = [c for c in fn.all('CXXMemberCallExpr') if (fn.nodes[c].get('callee') or '').endswith('::pop') and
-                'this.m_pollMessages' in fn.key(fn.nodes[c].get('obj', -1))]
-        done = fn.edges_with_atom('this.m_pollMessages.empty()', True)
-        if not pops or not done:
-            continue
-        n += 1
-        resets = set(nid for nid, d, rhs, op, lhs in fn.assignments() if d and d.endswith('g_lastPollOrder') and op == '=' and
-                     rhs is not None and fn.val(rhs) == 0)
-        kept = any(fn.reaches_point(fn.blocks[b].succs[j], (fn.exit, 0), resets) for b, j in done)
-        ctx.ob('C17.R4', fn, pops[0], bool(resets) and not kept, 'poll queue emptied in %s' % fn.name.split('::')[-1],
-               'the high-water mark is reset on every path behind it: %s' % (bool(resets) and not kept))
-    if n < 2:
-        raise AnalysisBroken('C17.R4: writes of g_lastPollOrder / emptying of the poll queue not found')
+    if n < 1:
+        raise AnalysisBroken('C17.R4: no write of g_lastPollOrder found')
 
 
 def r5(ctx):
@@ -305,7 +276,42 @@ def _loops_back(fn, start, mine):
     return any(fn.pos(a) is not None and fn.pos(a)[0] == start for a in mine)
 
 
+def r6(ctx):
+    ctx.rule('C17.R6', 'a message that is polled from its creation joins the queue at the current virtual time: the constructor of '
+             'Message that takes a poll priority initialises m_pollOrder with the high-water mark g_lastPollOrder when that '
+             'priority is set (0 only for a message without priority) - starting at 0 after hours of polling lets a message '
+             'added at run time be selected over and over until it has caught up, and after a reload it starves every message '
+             'that is anchored at the mark by a later priority change', minimum=1)
+    fb = ctx.fb
+    n = 0
+    seen = set()
+    for f in fb.functions:
+        if f.name != 'ebusd::Message::Message' or (f.name, f.sig) in seen:
+            continue
+        seen.add((f.name, f.sig))
+        prio = [p for p in f.params if 'priority' in (p.get('name') or '').lower()]
+        if not prio:
+            continue
+        for i in f.inits:
+            if i.get('member') != 'm_pollOrder':
+                continue
+            n += 1
+            ctx.touch(f)
+            k = f.key(i['init'])
+            x = f.nodes[f.strip(i['init'], casts=True)]
+            ok = 'g_lastPollOrder' in k
+            if x.get('k') == 'ConditionalOperator':
+                ck = f.key(x['cond'])
+                pn = prio[0]['name']
+                pos = 'g_lastPollOrder' in f.key(x['then'])
+                ok = pn in ck and ((pos and (' <= #0)' in ck or ' == #0)' in ck) is False) or (not pos and 'g_lastPollOrder' in f.key(x['else'])))
+            ctx.ob('C17.R6', f, i['init'], ok, 'initial poll order of a message created with a priority', 'm_pollOrder(%s)' % k)
+    if n < 1:
+        raise AnalysisBroken('C17.R6: constructor initialiser of m_pollOrder not found')
+
+
 def run(ctx):
+    r6(ctx)
     r5(ctx)
     r1(ctx)
     r2(ctx)
